@@ -17,11 +17,11 @@ Definition C01_full_statement : Prop :=
 
 (* HEADLINE.  For every network (any number of nodes, operators, edges, parallel edges, self loops, hierarchy levels, several
    variables of one node feeding one target), every state vector, every parameter assignment and every variable, the mechanism
-   model computes the Spec's derivative.  The guard consists only of guard_names / guard_labels / guard_parser: they are not
+   model computes the Spec's derivative.  The guard consists only of guard_names / guard_labels: they are not
    needed by the proof (C01_model_full below has no guard) but delimit where the MODEL is faithful to the code — it does not
    describe clashes between generated names (`weight`, `x_in0`, `a_v1`) and user names, which make the real code raise or
-   compute something else (findings C01-D22, C01-D22b), nor the compile-time crash of the expression parser on a
-   sum-substituted input of degree >= 3 (C01-P1).
+   compute something else (findings C01-D22, C01-D22b).  (The parser crash class C01-P1 is cured by fix D80; its witness is a
+   regression case.)
    Pipeline coverage: grouping, merging, matrix / indexed forms, multi-source sum, wiring of producers and edge operator,
    recursive evaluation of algebraic variables; separately proved: hierarchy flattening (the C01_hierarchy theorems), the
    evaluation order of _sort_var_updates (C01_sort_topological, C01_sorted_run_solves; that this solution is the recursive
